@@ -195,7 +195,7 @@ def check_formula(run, bp, g, cards):
         run.cls("op:" + o)
 
 
-PSORTS = ["S1", "S2", "L{S1}", "L{S2}", "P{S2, Int}", "P{S1, Bool}", "my sort"]
+PSORTS = ["S1", "S2", "L{S1}", "L{S2}", "P{S2, Int}", "P{S1, Bool}", "my sort", "my list{S1}", "my list{my sort}"]
 CFGS = [Cfg(max_depth=4, quant_unbounded=True, sorts=PSORTS, quant_types=[BOOL, BV(1), BV(2), SORT("S1"), SORT("L{S1}")]),
         Cfg(max_depth=3, theories={"bool", "int", "real", "str", "arr", "uf", "sort", "quant"}, quant_unbounded=True,
             sorts=PSORTS),
